@@ -173,4 +173,69 @@ theorem rd24_lt (a b c : UInt8) : (rd24 a b c).toNat < 16777216 := by
   have hc : c.toNat < 256 := c.toNat_lt
   rw [rd24_toNat]; omega
 
+/-! ### 64-bit big-endian (nonce) -/
+
+theorem mul_or (a b k : Nat) (hb : b < 2 ^ k) : a * 2 ^ k ||| b = a * 2 ^ k + b := by
+  have := shl_or a b k hb; rwa [Nat.shiftLeft_eq] at this
+
+theorem rd64_toNat (a b c d e f g h : UInt8) :
+    (rd64 a b c d e f g h).toNat =
+      a.toNat * 72057594037927936 + b.toNat * 281474976710656 + c.toNat * 1099511627776 +
+      d.toNat * 4294967296 + e.toNat * 16777216 + f.toNat * 65536 + g.toNat * 256 + h.toNat := by
+  have ha : a.toNat < 256 := a.toNat_lt; have hb : b.toNat < 256 := b.toNat_lt
+  have hc : c.toNat < 256 := c.toNat_lt; have hd : d.toNat < 256 := d.toNat_lt
+  have he : e.toNat < 256 := e.toNat_lt; have hf : f.toNat < 256 := f.toNat_lt
+  have hg : g.toNat < 256 := g.toNat_lt; have hh : h.toNat < 256 := h.toNat_lt
+  simp only [rd64, UInt64.toNat_or, UInt64.toNat_shiftLeft, UInt8.toNat_toUInt64]
+  have e56 : UInt64.toNat 56 % 64 = 56 := by decide
+  have e48 : UInt64.toNat 48 % 64 = 48 := by decide
+  have e40 : UInt64.toNat 40 % 64 = 40 := by decide
+  have e32 : UInt64.toNat 32 % 64 = 32 := by decide
+  have e24 : UInt64.toNat 24 % 64 = 24 := by decide
+  have e16 : UInt64.toNat 16 % 64 = 16 := by decide
+  have e8 : UInt64.toNat 8 % 64 = 8 := by decide
+  have m56 : a.toNat <<< 56 % 2 ^ 64 = a.toNat * 2 ^ 56 := by
+    rw [Nat.shiftLeft_eq]; apply Nat.mod_eq_of_lt; omega
+  have m48 : b.toNat <<< 48 % 2 ^ 64 = b.toNat * 2 ^ 48 := by
+    rw [Nat.shiftLeft_eq]; apply Nat.mod_eq_of_lt; omega
+  have m40 : c.toNat <<< 40 % 2 ^ 64 = c.toNat * 2 ^ 40 := by
+    rw [Nat.shiftLeft_eq]; apply Nat.mod_eq_of_lt; omega
+  have m32 : d.toNat <<< 32 % 2 ^ 64 = d.toNat * 2 ^ 32 := by
+    rw [Nat.shiftLeft_eq]; apply Nat.mod_eq_of_lt; omega
+  have m24 : e.toNat <<< 24 % 2 ^ 64 = e.toNat * 2 ^ 24 := by
+    rw [Nat.shiftLeft_eq]; apply Nat.mod_eq_of_lt; omega
+  have m16 : f.toNat <<< 16 % 2 ^ 64 = f.toNat * 2 ^ 16 := by
+    rw [Nat.shiftLeft_eq]; apply Nat.mod_eq_of_lt; omega
+  have m8 : g.toNat <<< 8 % 2 ^ 64 = g.toNat * 2 ^ 8 := by
+    rw [Nat.shiftLeft_eq]; apply Nat.mod_eq_of_lt; omega
+  rw [e56, e48, e40, e32, e24, e16, e8, m56, m48, m40, m32, m24, m16, m8]
+  simp only [Nat.or_assoc]
+  rw [mul_or g.toNat h.toNat 8 (by omega)]
+  rw [mul_or f.toNat _ 16 (by omega)]
+  rw [mul_or e.toNat _ 24 (by omega)]
+  rw [mul_or d.toNat _ 32 (by omega)]
+  rw [mul_or c.toNat _ 40 (by omega)]
+  rw [mul_or b.toNat _ 48 (by omega)]
+  rw [mul_or a.toNat _ 56 (by omega)]
+  omega
+
+theorem be64_rd64 (x : UInt64) :
+    rd64 (x >>> (56 : UInt64)).toUInt8 (x >>> (48 : UInt64)).toUInt8 (x >>> (40 : UInt64)).toUInt8
+      (x >>> (32 : UInt64)).toUInt8 (x >>> (24 : UInt64)).toUInt8 (x >>> (16 : UInt64)).toUInt8
+      (x >>> (8 : UInt64)).toUInt8 x.toUInt8 = x := by
+  apply UInt64.toNat_inj.mp
+  rw [rd64_toNat]
+  have hx : x.toNat < 18446744073709551616 := x.toNat_lt
+  simp only [UInt64.toNat_toUInt8, UInt64.toNat_shiftRight]
+  have e56 : UInt64.toNat 56 % 64 = 56 := by decide
+  have e48 : UInt64.toNat 48 % 64 = 48 := by decide
+  have e40 : UInt64.toNat 40 % 64 = 40 := by decide
+  have e32 : UInt64.toNat 32 % 64 = 32 := by decide
+  have e24 : UInt64.toNat 24 % 64 = 24 := by decide
+  have e16 : UInt64.toNat 16 % 64 = 16 := by decide
+  have e8 : UInt64.toNat 8 % 64 = 8 := by decide
+  rw [e56, e48, e40, e32, e24, e16, e8]
+  simp only [Nat.shiftRight_eq_div_pow]
+  omega
+
 end OAP
